@@ -49,3 +49,42 @@ Theorem C03_each_non_array_fails cx f en ln var arr body alt av :
   exists msg, eval_stmt cx (S f) en (SEach ln var arr body alt) = Fail ln msg.
 Proof. exact (each_non_array_fails cx f en ln var arr body alt av). Qed.
 Print Assumptions C03_each_non_array_fails.
+
+(* ---- the full statement for loops: the model's each_loop / for_loop (marker objects scanned
+   through nested Blocks, output concatenated per pass, the @for post value re-bound to the init
+   variable) REFINE the specification's passes (signals Normal / Break / Continue): same output
+   and same scope chain after any number of passes, a break ends the innermost loop only, a
+   continue ends the pass only, an empty @each / a @for whose condition fails at entry renders the
+   @else body (whose signals reach the enclosing loop). *)
+From TW Require Import ExprSem CleanValues TemplateRefine.
+
+Theorem C03_each_passes_refine_the_specification f v body len i elems sc :
+  env_clean sc = true -> forallb clean elems = true -> nodes_ok body ->
+  exists K, forall fm, (K <= fm)%nat -> forall ln out,
+    Rl (each_loop cx0 fm ln v (map cnode body) len i elems sc out) out
+       (each_passes model_call_spec f v body len i elems sc).
+Proof. exact (proj1 (proj2 (proj2 (proj2 (refinement f)))) v body len i elems sc). Qed.
+Print Assumptions C03_each_passes_refine_the_specification.
+
+Theorem C03_for_passes_refine_the_specification f init cond post body sc :
+  env_clean sc = true -> for_ok init cond post -> nodes_ok body ->
+  exists K, forall fm, (K <= fm)%nat -> forall ln out,
+    Rl (for_loop cx0 fm ln (for_init init) (for_cond cond) (for_post post) (map cnode body) sc out) out
+       (for_passes model_call_spec f cond post body sc).
+Proof. exact (proj2 (proj2 (proj2 (proj2 (refinement f)))) init cond post body sc). Qed.
+Print Assumptions C03_for_passes_refine_the_specification.
+
+Theorem C03_loop_statements_refine_the_specification fs sc n :
+  env_clean sc = true -> node_ok n ->
+  exists K, forall fm, (K <= fm)%nat ->
+    Rs (eval_stmt cx0 fm sc (cnode n)) (run_node model_call_spec fs sc n).
+Proof. exact (statement_refines_specification fs sc n). Qed.
+Print Assumptions C03_loop_statements_refine_the_specification.
+
+(* in the specification a loop statement never lets a break or continue escape *)
+Theorem C03_specification_break_stays_in_its_loop f v body len i x rest sc sc1 o sc2 :
+  assign sc v x = Some sc1 ->
+  run_nodes model_call_spec f (set_meta sc1 i len) body = TOk o SigBreak sc2 ->
+  each_passes model_call_spec (S f) v body len i (x :: rest) sc = TOk o SigNormal sc2.
+Proof. intros Ha Hr. rewrite each_passes_S, Ha, Hr. reflexivity. Qed.
+Print Assumptions C03_specification_break_stays_in_its_loop.
